@@ -183,12 +183,22 @@ def split_at(se, env, pc, r, n):
 
 
 def vec_index(se, env, pc, r, i):
+    v00 = se.deref(env, r) if isinstance(r, Ref) else r
+    if isinstance(v00, dict) and 'len' in v00 and not isinstance(i, dict):
+        # one byte of an abstract buffer: contents are not represented
+        ii = i if is_bv(i) else bv(i)
+        ok = ULT(ii, v00['len'])
+        if se.check(Not(ok)): se.panics.append((list(pc) + [Not(ok)], 'index out of bounds (summary)', 'summary'))
+        return [(ok, Opaque('byte of an abstract buffer'), env.get('$state'))]
     if not isinstance(i, (int, dict)) and is_bv(i):
         c = se.concretize(i)
         if c is None: raise Inconclusive('symbolic index into a vector (%s)' % i)
         i = c
     v0 = se.deref(env, r) if isinstance(r, Ref) else r
     if isinstance(v0, dict) and 'len' in v0 and isinstance(i, dict) and i.get('__ty') == 'Range': return abs_slice(se, env, pc, v0, i)
+    if isinstance(v0, dict) and 'len' in v0 and isinstance(i, dict) and i.get('__ty') == 'RangeFrom': return abs_slice(se, env, pc, v0, {0: i[0], 1: v0['len']})
+    if isinstance(v0, dict) and 'len' in v0 and isinstance(i, dict) and i.get('__ty') == 'RangeTo': return abs_slice(se, env, pc, v0, {0: bv(0), 1: i[0]})
+    if isinstance(v0, dict) and 'len' in v0 and isinstance(i, dict) and i.get('__ty') == 'RangeFull': return one(env, v0)
     r = base_ref(se, env, r); l = get_at(env[r.local], r.path)
     if isinstance(i, dict) and i.get('__ty') == 'Range':
         a, b = as_int(i[0]), as_int(i[1]); return one(env, l[a:b])
@@ -236,6 +246,9 @@ def it_skip(se, env, pc, it, n): return one(env, dict(it, it=it['it'][as_int(n):
 
 def first_last(idx):
     def f(se, env, pc, r):
+        if isinstance(r, list):          # a slice passed by value (returned by a summary): hand out the element itself
+            if not r: return one(env, Enum('None'))
+            return one(env, Enum('Some', (r[0 if idx == 0 else len(r) - 1],)))
         rr = base_ref(se, env, r); l = get_at(env[rr.local], rr.path)
         if not isinstance(l, list): raise Inconclusive('first/last of %r' % (l,))
         if not l: return one(env, Enum('None'))
@@ -377,8 +390,8 @@ def combinator_summaries(P):
     P[r'(?:Option|Result)::map_or_else'] = _map_or_else
     P[r'(?:Option|Result)::unwrap_or_else'] = _unwrap_or_else
     P[r'(?:Option|Result)::unwrap_or'] = lambda se, env, pc, v, d: one(env, _enum_of(se, env, v).fields[0] if _enum_of(se, env, v).tag in ('Some', 'Ok') else d)
-    P[r'Result::ok'] = lambda se, env, pc, v: one(env, Enum('Some', (v.fields[0],)) if v.tag == 'Ok' else Enum('None'))
-    P[r'Result::err'] = lambda se, env, pc, v: one(env, Enum('Some', (v.fields[0],)) if v.tag == 'Err' else Enum('None'))
+    P[r'Result::ok'] = lambda se, env, pc, v: one(env, v if isinstance(v, Opaque) else (Enum('Some', (v.fields[0],)) if v.tag == 'Ok' else Enum('None')))
+    P[r'Result::err'] = lambda se, env, pc, v: one(env, v if isinstance(v, Opaque) else (Enum('Some', (v.fields[0],)) if v.tag == 'Err' else Enum('None')))
     P[r'Option::ok_or'] = lambda se, env, pc, v, e: one(env, Enum('Ok', (v.fields[0],)) if v.tag == 'Some' else Enum('Err', (e,)))
     P[r'Option::filter'] = _filter
 
